@@ -191,6 +191,29 @@ def _run(ctx):
                  ctx.construct(ce, extra='reads ' + key),
                  'execution creation no longer reads params[%r]' % key,
                  ctx.loc(ce))
+    # the engine entry point keeps the namespace the caller put into the
+    # parameters: the namespace *of the definition* (the positional
+    # argument, '' for a definition in the default namespace) replaces it
+    # only when it names a namespace
+    from mstatic.rules import dt as _dt
+    es = prog.func('mistral.engine.default_engine.DefaultEngine.'
+                   'start_workflow')
+    ns = 'wf_namespace'
+    if ns not in es.params:
+        raise AnalysisError('C09.R3: DefaultEngine.start_workflow lost its '
+                            'wf_namespace parameter')
+    tt = _dt.Table(ctx, es, [(ns, (None, '', 'ns'))])
+    sets = [n for n in tt.cfg.nodes if n.kind == 'stmt' and
+            isinstance(n.ast, ast.Assign) and
+            norm(n.ast.targets[0]) == "params['namespace']"]
+    okn = len(sets) == 1 and norm(sets[0].ast.value) == ns and \
+        tt.inputs_at(sets[0]) == {('ns',)}
+    r3.check(okn, ctx.construct(es, extra="caller's namespace kept"),
+             "params['namespace'] (the caller's namespace, which every "
+             'descendant execution records) is replaced by the namespace of '
+             'the definition also when that is empty / absent (%s)'
+             % sorted(map(str, tt.inputs_at(sets[0]))) if sets else '',
+             ctx.loc(es))
     # undeclared input -> params (assignment present under the test)
     loop = [n for n in own_nodes(sc.node) if isinstance(n, ast.For) and
             'input_dict.items()' in norm(n.iter)]
